@@ -305,6 +305,20 @@ func edgeAtom(info *types.Info, e *Edge) (condAtom, bool) {
 			op = flipOp(op)
 		}
 		x, y := be.X, be.Y
+		// `b == false`, `true != b`: a boolean atom
+		if op == token.EQL || op == token.NEQ {
+			for _, pair := range [][2]ast.Expr{{x, y}, {y, x}} {
+				if id, ok := ast.Unparen(pair[1]).(*ast.Ident); ok && (id.Name == "true" || id.Name == "false") {
+					if _, isConst := info.Uses[id].(*types.Const); isConst {
+						val := id.Name == "true"
+						if op == token.NEQ {
+							val = !val
+						}
+						return condAtom{Kind: "bool", X: ast.Unparen(pair[0]), True: val}, true
+					}
+				}
+			}
+		}
 		if isNilIdent(info, x) {
 			x, y = y, x
 			op = swapOp(op)
